@@ -313,6 +313,13 @@ def driver(cinco, desc, seed, n_traces, length):
                                 {"m": "clear"},
                                 {"m": "remove_at", "i": rng.randint(0, 2)},
                             ]
+                            + (
+                                [{"m": "item_set", "i": rng.randint(0, 2), "k": rng.choice(["p", "q"]), "v": rng.choice([I(rng.randint(0, 10)), S("t")])}] * 3
+                                if f["item"]["kind"] == "schema"
+                                else [{"m": "slice_from", "src": "l2"}, {"m": "extend_from", "src": "l2"}]
+                            )
+                            + [
+                            ]
                         )
                     else:
                         kk = lambda: S(rng.choice(["k", "K", "m", "n", "q"]))  # noqa
